@@ -194,7 +194,7 @@ def work(job):
     if job[1] == "created_parent":
         return work_created((job[0], job[2], job[3]))
     if job[1] == "set_attribute_node":
-        return work_attr((job[0], job[2], job[3], job[4]))
+        return work_attr((job[0],) + tuple(job[2:]))
     prop, kinds, gc, action, who, new_idx, ref_sel, timeout_s = job
     out = {"job": job[1:7], "status": "holds", "paths": 0, "queries": 0, "error": None, "fns": {}, "skipped": False}
     t0 = time.time()
@@ -479,8 +479,9 @@ def work_created(job):
 def work_attr(job):
     """set_attribute_node on P: P has `nattr` attributes and the children `kinds`; the new attribute's name is symbolic
     (it may or may not be the name of an existing one).  C14: keys along the walk element -> its attributes -> its children."""
-    prop, nattr, kinds, timeout_s = job
-    out = {"job": (kinds, None, "set_attribute_node", ("attrs%d" % nattr,), None, None), "status": "holds", "paths": 0, "queries": 0,
+    prop, nattr, kinds, timeout_s = job[:4]
+    inuse = len(job) > 4 and job[4]          # the new attribute already belongs to another element (G)
+    out = {"job": (kinds, None, "set_attribute_node", ("attrs%d" % nattr,) + (("in-use",) if inuse else ()), None, None), "status": "holds", "paths": 0, "queries": 0,
            "error": None, "fns": {}, "skipped": False}
     t0 = time.time()
     try:
@@ -516,11 +517,14 @@ def work_attr(job):
                 info = K.mk_obj("ContextInfo", K.INFO, id=extra_ids[i], order_cache=0, order_version=0)
                 ctx = K.mk_obj("Context", K.INFO, info=info, ordering=st.ordering, registry=st.registry)
                 a = K.mk_obj("XmlAttribute", K.INFO, local_name=SStr(K.sym_str("an%d_" % i, 1)[0]), prefix=NONE, values=SVec(), context=ctx,
-                             parent_id=Some(st.ids["P"]) if i < nattr else NONE, _name="attr%d" % i)
+                             parent_id=Some(st.ids["P"]) if i < nattr else (Some(st.ids["G"]) if inuse else NONE), _name="attr%d" % i)
                 attrs.append((a, info))
                 if i < nattr:
                     P.fields["attributes"].append(K.mk_enum("XmlItem", K.INFO, "Attribute", a))
                     order.insert(pos + 1 + i, info)
+                elif inuse:
+                    st.nodes["G"][1].fields["attributes"].append(K.mk_enum("XmlItem", K.INFO, "Attribute", a))
+                    order.insert(pos, info)          # right after G, before P
             recv = K.mk_obj("XmlElement", K.DOM, element=P)
             new_dom = K.mk_obj("XmlAttr", K.DOM, attribute=attrs[nattr][0])
             r = I.try_repo_method(recv, "set_attribute_node", [new_dom])
@@ -540,6 +544,14 @@ def work_attr(job):
             if p["kind"] == "panic":
                 return prop != "C13"
             r, alist, keys = p["value"]
+            if inuse:
+                # DOM Level 1: INUSE_ATTRIBUTE_ERR, and nothing changes
+                same = alist == ["attr%d" % j for j in range(nattr)]
+                walk = ["D", "G", "attr%d" % nattr, "P"] + ["attr%d" % j for j in range(nattr)] + [n for n in preorder(st_s.tree) if n not in ("D", "G", "P")]
+                ks = [kernel.to_bv(keys[n]) for n in walk]
+                good = And(*[k_ != 0 for k_ in ks], *[z3.ULT(a_, b_) for a_, b_ in zip(ks, ks[1:])])
+                refused = isinstance(r, Enum) and r.variant == "Err" and err_class(r) == "InuseAttributeErr"
+                return And(refused and same, good) if prop == "C13" else good
             if not (isinstance(r, Enum) and r.variant == "Ok"):
                 return False
             # which existing attribute carries the new name?
@@ -573,11 +585,13 @@ def work_attr(job):
         if verdict == "sat":
             mdl, p = info
             out["status"] = "sat"
-            w = {"kinds": kinds, "gc": None, "action": "set_attribute_node", "new": ("attrs%d" % nattr,), "ref": None, "specified": "ok"}
+            w = {"kinds": kinds, "gc": None, "action": "set_attribute_node", "new": ("attrs%d" % nattr,) + (("in-use",) if inuse else ()), "ref": None,
+                 "specified": "InuseAttributeErr" if inuse else "ok"}
             if p["kind"] == "panic":
                 w["panic"] = p["msg"]
             else:
                 r, alist, keys = p["value"]
+                w["result"] = "Ok" if (isinstance(r, Enum) and r.variant == "Ok") else err_class(r)
                 w["attributes_after"] = alist
                 w["keys_after"] = {n: (K.model_int(mdl, v) if not isinstance(v, int) else v) for n, v in keys.items()}
                 w["names"] = [K.model_str(mdl, nm) for nm, _ in names]
@@ -633,6 +647,11 @@ def label_of(name, kinds, who):
 def replay_case(w):
     if w["action"] == "created_parent":
         return {"op": "created_parent", "attach_first": w["new"][0] == "attached", "input": "<r/>"}
+    if w["action"] == "set_attribute_node" and "in-use" in w["new"]:
+        names = w.get("names") or ["a"]
+        cls = [names.index(x) for x in names]
+        attrs = "".join(" a%d='x'" % cls[i] for i in range(len(names) - 1))
+        return {"op": "attr_inuse", "input": "<g a%d='used'><p%s/></g>" % (cls[-1], attrs), "name": "a%d" % cls[-1]}
     if w["action"] == "set_attribute_node":
         names = w.get("names") or ["a"]
         cls = [names.index(x) for x in names]          # look-alike classes of the attribute names; the last one is the new attribute
@@ -676,6 +695,8 @@ def judge(case, out):
         return True
     if case.get("op") == "created_parent":
         return not (out.get("parent_of_c") == "p" and out.get("p_children_after_move") == [] and out.get("root_children_after_move", [])[-1:] == ["c"])
+    if case.get("op") == "attr_inuse":
+        return "InuseAttributeErr" not in str(out.get("err")) or out.get("printed_before") != out.get("printed_after")
     if case.get("op") == "attr_order":
         return not out.get("ok") or out.get("edited") != out.get("fresh")
     want = case.get("specified")
@@ -724,6 +745,7 @@ def jobs_for(prop, tier):
         for nattr in (0, 1, 2):
             for kinds in ((), ("Element",), ("Text", "Element")):
                 jobs.append((prop, "set_attribute_node", nattr, kinds, 120))
+            jobs.append((prop, "set_attribute_node", nattr, (), 120, True))
     return jobs
 
 
@@ -792,7 +814,10 @@ def obligations(rep, rp, prop, tier, jobs_n=16):
             elif confirmed:
                 w, full, rr = confirmed
                 status = "violated"
-                if action == "set_attribute_node":
+                if action == "set_attribute_node" and full.get("op") == "attr_inuse":
+                    rep.violation(oid + "." + cls, full, "p.set_attribute_node(the attribute %s of <g>) on %s: %s; document before %s, after %s" % (
+                        full.get("name"), full["input"], rr.get("err") or "succeeded", rr.get("printed_before"), rr.get("printed_after")))
+                elif action == "set_attribute_node":
                     rep.violation(oid + "." + cls, full, "set_attribute(%s) on <p> of %s: XPath lists nodes and attributes as %s, a fresh parse of the result (%s) as %s" % (
                         full.get("name"), full["input"], rr.get("edited"), rr.get("printed"), rr.get("fresh")))
                 elif action == "created_parent":
@@ -816,6 +841,8 @@ def classify(prop, w):
     who = w["new"][0] if w["new"] else "none"
     if w["action"] == "created_parent":
         return "created-parent:%s" % who
+    if w["action"] == "set_attribute_node" and "in-use" in w["new"]:
+        return "attribute-in-use"
     if w.get("panic"):
         return "panic:%s" % who
     if prop == "C14":
